@@ -52,4 +52,4 @@ def lemmas():
 def bounded(tier, seed, pr):
     from pyvc.boundedrun import run_bounded
 
-    return [run_bounded(pr, "b_store.py", "store_sequences_vs_dict_model"), run_bounded(pr, "b_reads.py", "reads_leave_no_trace")]
+    return [run_bounded(pr, "b_store.py", "store_sequences_vs_dict_model"), run_bounded(pr, "b_reads.py", "reads_leave_no_trace"), run_bounded(pr, "b_leftovers.py", "store_blob_from_leftover_states")]
